@@ -232,6 +232,8 @@ class Interp:
             return len(v.items) > 0
         if isinstance(v, SymSeq):
             return v.length > 0
+        if type(v).__name__ == "LoweredSeq":
+            return v.length > 0
         if isinstance(v, Rope):
             return self.models.sum_len(v.chunks) > 0
         if isinstance(v, Ref):
